@@ -203,7 +203,9 @@ example : countersOk {} [.sc .long, exSD, .sc .float] = true
 /-- `struct {double d; unsigned :0;}`: same layout on both sides, but c2mir classifies the
 zero-width bit-field INTEGER (GCC ≥ 12.1 / psABI ignore it in a struct) -/
 def exZeroWidth : CTy := .agg false (.cons .plain (.sc .double) (.cons (.bf 0 false) (.sc .uint) .nil))
-theorem exZeroWidth_classes : c2mLay exZeroWidth = sysvLay exZeroWidth
+theorem exZeroWidth_classes :
+    ((c2mLay exZeroWidth).size, (c2mLay exZeroWidth).align, flatMems c2mLay exZeroWidth)
+      = ((sysvLay exZeroWidth).size, (sysvLay exZeroWidth).align, flatMems sysvLay exZeroWidth)
     ∧ c2mClassify exZeroWidth = some [.int] ∧ sysvClass sysvLay exZeroWidth = [.sse] := by
   decide +kernel
 
